@@ -125,6 +125,7 @@ fn main() {
         pairs::run_pairs(&ctx, &u3, true, "u3_three_labels");
     }
 
+    ctx.set("wall_after_pairs_s", json!(ctx.elapsed_s()));
     // ------------------------------------------------------------------ triple family
     {
         let tl: Vec<Vec<u8>> = vec![b"a".to_vec(), b"A".to_vec(), b"b".to_vec(), vec![0], b"[".to_vec(), b"ab".to_vec(), b"a.".to_vec(), vec![0xff]];
@@ -166,13 +167,14 @@ fn main() {
                 for f in wirefam::forms(labels.len()) {
                     wirefam::run_refbytes_case(labels, h, off, f, buf, l);
                 }
-                if i % 50021 == 0 {
+                if i % 60013 == 0 {
                     l.sample(wirefam::wire_case_json(labels, off, scens[(i % scens.len() as u64) as usize], wirefam::Mode::Compressed));
                 }
             },
         );
     }
 
+    ctx.set("wall_after_wire_s", json!(ctx.elapsed_s()));
     // ------------------------------------------------------------------ text family
     {
         let hl = textfam::host_labels(thorough);
@@ -193,7 +195,7 @@ fn main() {
                     textfam::run_text_case(&RefName::new(w.clone(), f), true, l);
                 }
             }
-            if i % 30011 == 0 {
+            if i % 60013 == 0 {
                 l.sample(textfam::text_case_json(&RefName::new(labels.clone(), true)));
             }
         });
@@ -220,6 +222,7 @@ fn main() {
         });
     }
 
+    ctx.set("wall_after_text_s", json!(ctx.elapsed_s()));
     // ------------------------------------------------------------------ limit family
     {
         let shapes = limits::shapes();
@@ -227,7 +230,7 @@ fn main() {
         ctx.set("limit_max_labels", json!(shapes.iter().map(|s| s.len()).max().unwrap_or(0)));
         ctx.par_run(shapes.len() as u64, 4, |i, l| {
             limits::run_shape(&shapes[i as usize], l);
-            if i % 257 == 0 {
+            if i % 239 == 0 {
                 l.sample(limits::shape_json(&shapes[i as usize]));
             }
         });
